@@ -88,12 +88,16 @@ Definition handle_right (s : sweep) (other : eid) : outcome sweep :=
 
 Fixpoint sweep_loop (fuel : nat) (s : sweep) (sbbox cbbox : bounding_box N) (rightbound : X N)
          (op : operation) : outcome sweep :=
-  match qpop (sw_st s) (sw_q s) with
-  | None => Ok s
-  | Some (ev, q') =>
-      match fuel with
-      | O => Panic PEventBudget
-      | S f =>
+  match fuel with
+  | O =>
+      match qpop (sw_st s) (sw_q s) with
+      | None => Ok s
+      | Some _ => Panic PEventBudget
+      end
+  | S f =>
+      match qpop (sw_st s) (sw_q s) with
+      | None => Ok s
+      | Some (ev, q') =>
           let s1 := mkSweep (sw_st s) q' (sw_sl s) (ev :: sw_sorted s) in
           let e := getE (sw_st s) ev in
           let x := px (e_point e) in
